@@ -64,6 +64,14 @@ var c15Ns = []int{1, 2, 3, 4, 5, 6, 7, 8, 9, 10, 52, 53, 100}
 func c15Run(w *W, c Case) {
 	y := c.A[0]
 	w.Class(fmt.Sprintf("century%02d", y/100))
+	historyTouch(w, y)
+	if y%2 == 1 && y+1 <= maxYear {
+		// units of the following year are used first
+		for s := 0; s < 7; s++ {
+			calendar.NewSolarMonthFromYm(y+1, 1+s).GetWeeks(s)
+			calendar.NewSolarWeekFromYmd(y+1, 1+s, 8, s).Next(-3, true)
+		}
+	}
 	rng := w.Rng
 	jan1 := ref.JDN(y, 1, 1)
 	for j := jan1; j <= ref.JDN(y, 12, 31); j++ {
